@@ -14,6 +14,9 @@ import IcingaModel.C20.Model
 import IcingaModel.C20.Spec
 import IcingaModel.C20.Json
 import IcingaModel.C20.Message
+import IcingaModel.C20.Dict
+import IcingaModel.C20.Utf8
+import IcingaModel.C20.SpecText
 import Std.Data.HashSet
 
 open Icinga Icinga.C20 Icinga.Proto
@@ -121,8 +124,9 @@ def jsonNumberOk (t : List UInt8) : Bool :=
 
 def tokCodec : NumCodec (List UInt8) := { fmt := id, parse := fun t => if jsonNumberOk t then some t else none }
 
-def utf8ToChars (bs : Bytes) : Option (List Char) :=
-  (String.fromUTF8? (ByteArray.mk bs.toArray)).map String.toList
+/-- The characters an Icinga string (arbitrary bytes) stands for on the wire: sanitise (ValidateUTF8), decode —
+    the model's `decodeLossy`; total. -/
+def utf8ToChars (bs : Bytes) : Option (List Char) := some (decodeLossy bs)
 
 /-- Parse value tokens (prefix order) into a model value; numbers become their wire text. -/
 def parseTokV : Nat → List String → Option (JV × List String)
@@ -167,33 +171,13 @@ def parseTokV : Nat → List String → Option (JV × List String)
         (members n rest []).map (fun (kvs, r) => (.obj kvs, r))
     else none
 
-def charsToHex (s : List Char) : String := hexOf (String.ofList s).toUTF8.toList
+def charsToHex (s : List Char) : String := hexOf (utf8Encode s)
 
 def ltChars : List Char → List Char → Bool
   | [], [] => false
   | [], _ :: _ => true
   | _ :: _, [] => false
   | a :: as, b :: bs => if a.val < b.val then true else if b.val < a.val then false else ltChars as bs
-
-/-- Insert into a key-sorted association list unless the key is present (a later duplicate has already won:
-    `Dictionary::Set` on a std::map, applied in textual order, keeps the last value). -/
-def dictAdd (k : List Char) (v : JV) : List (List Char × JV) → List (List Char × JV)
-  | [] => [(k, v)]
-  | (k', v') :: r => if k == k' then (k', v') :: r else if ltChars k k' then (k, v) :: (k', v') :: r else (k', v') :: dictAdd k v r
-
-mutual
-  /-- The Icinga `Value` a decoded tree denotes: dictionaries sorted by key, last duplicate wins. -/
-  def canonV : JV → JV
-    | .arr xs => .arr (canonElems xs)
-    | .obj kvs => .obj (canonMembers kvs)
-    | v => v
-  def canonElems : List JV → List JV
-    | [] => []
-    | x :: xs => canonV x :: canonElems xs
-  def canonMembers : List (List Char × JV) → List (List Char × JV)
-    | [] => []
-    | (k, v) :: r => dictAdd k (canonV v) (canonMembers r)
-end
 
 mutual
   /-- Tokens of a model value as the harness renders an Icinga `Value`; `exact`: numbers as their wire
@@ -269,6 +253,9 @@ structure DSt where
   fChunks : Nat := 0
   jEsc : Nat := 0
   jSkipped : Nat := 0
+  jSanitised : Nat := 0
+  nU : Nat := 0
+  uChanged : Nat := 0
   kImplOk : Nat := 0
   kModelOk : Nat := 0
   kModelStricter : Nat := 0
@@ -388,11 +375,17 @@ def handleJ (d : DSt) (n : Nat) (line : String) (pre post : List String) : IO DS
     | none => bad d n
     | some enc =>
       let mut d := { d with steps := d.steps + 1, nJ := d.nJ + 1 }
-      -- the property on the implementation's own observation: decoded value = original value
-      if back != toks then
-        d ← specfail d n .jsonRoundtrip
       match parseTokV (tl.length + 1) tl with
       | some (v, []) =>
+        -- the property on the implementation's own observation: decoded value = original value — for strings
+        -- that are not well-formed UTF-8: the sanitised string; for keys that collide after sanitising: the
+        -- dictionary `Set` builds (sorted, last wins)
+        if back != toks then
+          let want := renderV true (canonV v)
+          let got := (back.splitOn ",").map (normTok true)
+          if !toksEq want got then
+            d ← specfail d n .jsonRoundtrip
+          else d := { d with jSanitised := d.jSanitised + 1 }
         let me := jsonEncode tokCodec v
         if me != enc then
           d ← report d n "J" s!"encode impl={eh} model={hexOf me}"
@@ -417,10 +410,11 @@ def handleK (d : DSt) (n : Nat) (line : String) (pre post : List String) : IO DS
       let implOk := post.head? == some "ok"
       if !(implOk || post == ["err"]) then return (← bad d n)
       if implOk then d := { d with kImplOk := d.kImplOk + 1 }
-      -- the model speaks only about (sanitised = unchanged) valid UTF-8 text
-      match utf8ToChars txt with
+      -- JsonDecode sanitises the text first (json.cpp:211); the model decoder then speaks only about the
+      -- whitespace-free ASCII language the encoder emits (raw non-ASCII inside strings: model silent)
+      match some (sanitise txt) with
       | none => return d
-      | some _ =>
+      | some txt =>
         match jsonDecode tokCodec txt with
         | some v =>
           d := { d with kModelOk := d.kModelOk + 1 }
@@ -431,7 +425,8 @@ def handleK (d : DSt) (n : Nat) (line : String) (pre post : List String) : IO DS
           else
             let it := ((post.drop 1).headD "").splitOn "," |>.map (normTok false)
             let mt := renderV false (canonV v)
-            if !toksEq mt it then
+            -- "?" = the harness stopped rendering below depth 3000
+            if !it.contains "?" && !toksEq mt it then
               d ← report d n "K" s!"value impl={",".intercalate it} model={",".intercalate mt}"
           return d
         | none =>
@@ -442,9 +437,9 @@ def handleK (d : DSt) (n : Nat) (line : String) (pre post : List String) : IO DS
 /-- Compare what DecodeMessage returned for `payload` with the model; `none` = agreement (or the model is silent:
     text outside the whitespace-free language it decodes, or not valid UTF-8). -/
 def messageDiff (payload : Bytes) (obs : MsgObs) (toks : String) : Option String × Bool :=
-  match utf8ToChars payload with
+  match some (sanitise payload) with
   | none => (none, true)
-  | some _ =>
+  | some payload =>
     match jsonDecode tokCodec payload with
     | none => (none, true)
     | some v =>
@@ -454,7 +449,7 @@ def messageDiff (payload : Bytes) (obs : MsgObs) (toks : String) : Option String
         else
           let it := (toks.splitOn ",").map (normTok false)
           let mt := renderV false (canonV (.obj kvs))
-          if toksEq mt it then (none, false) else (some s!"value impl={",".intercalate it} model={",".intercalate mt}", false)
+          if it.contains "?" || toksEq mt it then (none, false) else (some s!"value impl={",".intercalate it} model={",".intercalate mt}", false)
       | .error _ =>
         if obs == .rejected then (none, false) else (some "model: rejected (not an object), implementation: not rejected", false)
 
@@ -533,6 +528,23 @@ def handleM (d : DSt) (n : Nat) (line : String) (pre post : List String) : IO DS
     | _, _ => bad d n
   | _, _ => bad d n
 
+def handleU (d : DSt) (n : Nat) (line : String) (pre post : List String) : IO DSt := do
+  match pre, post with
+  | [hx], [oh] =>
+    match unhex hx, unhex oh with
+    | some inp, some out =>
+      let mut d := { d with steps := d.steps + 1, nU := d.nU + 1 }
+      let m := sanitise inp
+      if m != out then
+        d ← report d n "U" s!"impl={hexOf out} model={hexOf m}"
+      match sanitiseSpec inp out with
+      | some cl => d ← specfail d n cl
+      | none => pure ()
+      if out != inp then d := { (d.mark line) with uChanged := d.uChanged + 1 }
+      return d
+    | _, _ => bad d n
+  | _, _ => bad d n
+
 def handle (d : DSt) (n : Nat) (line : String) : IO DSt := do
   let ws := words line
   match ws with
@@ -547,6 +559,7 @@ def handle (d : DSt) (n : Nat) (line : String) : IO DSt := do
     else if tag == "J" then handleJ d n line pre post
     else if tag == "K" then handleK d n line pre post
     else if tag == "D" then handleD d n line pre post
+    else if tag == "U" then handleU d n line pre post
     else if tag == "M" then handleM d n line pre post
     else if tag == "X" then
       -- the real code crashed / aborted / hung on this operation: the property's "processed without crashing"
@@ -557,4 +570,4 @@ def handle (d : DSt) (n : Nat) (line : String) : IO DSt := do
 def main : IO Unit := do
   let stdin ← IO.getStdin
   let d ← foldLines stdin handle ({} : DSt)
-  IO.println s!"STATS cases={d.caseNo} steps={d.steps} t={d.nT} f={d.nF} b={d.nB} j={d.nJ} k={d.nK} t_ok={d.tOk} t_err={d.tErr} t_eof={d.tEof} t_errkind_diff={d.tKindDiff} buf_items={d.bItems} buf_err={d.bErr} f_chunks={d.fChunks} j_escaped={d.jEsc} j_skipped={d.jSkipped} k_impl_ok={d.kImplOk} k_model_ok={d.kModelOk} k_model_stricter={d.kModelStricter} k_num_range={d.kNumRange} d={d.nD} m={d.nM} d_dict={d.dDict} d_rejected={d.dRejected} d_model_silent={d.dModelSilent} m_msg={d.mMsg} m_rejected={d.mRejected} crashes={d.crashes} nontrivial={d.seen.size} mismatches={d.mismatches} specfails={d.specfails}"
+  IO.println s!"STATS cases={d.caseNo} steps={d.steps} t={d.nT} f={d.nF} b={d.nB} j={d.nJ} k={d.nK} t_ok={d.tOk} t_err={d.tErr} t_eof={d.tEof} t_errkind_diff={d.tKindDiff} buf_items={d.bItems} buf_err={d.bErr} f_chunks={d.fChunks} j_escaped={d.jEsc} j_skipped={d.jSkipped} j_sanitised={d.jSanitised} u={d.nU} u_changed={d.uChanged} k_impl_ok={d.kImplOk} k_model_ok={d.kModelOk} k_model_stricter={d.kModelStricter} k_num_range={d.kNumRange} d={d.nD} m={d.nM} d_dict={d.dDict} d_rejected={d.dRejected} d_model_silent={d.dModelSilent} m_msg={d.mMsg} m_rejected={d.mRejected} crashes={d.crashes} nontrivial={d.seen.size} mismatches={d.mismatches} specfails={d.specfails}"
